@@ -153,6 +153,7 @@ fn cmd_sim(args: &[&str], out: &mut Vec<String>) {
     for inj in &args[5..] {
         inject(&mut rp, inj);
     }
+    out.push(format!("mem0 {}", mem_line(&hk::memory(&rp))));
     state_lines(out, &rp);
     for _ in 0..cycles {
         out.push(format!("pre {}", values_line(&rp)));
@@ -205,6 +206,7 @@ fn cmd_run(args: &[&str], out: &mut Vec<String>) {
     for inj in &args[4..] {
         inject(&mut rp, inj);
     }
+    out.push(format!("mem0 {}", mem_line(&hk::memory(&rp))));
     let mut text: Vec<u8> = Vec::new();
     match rp.run(&mut text) {
         Ok(()) => out.push(String::from("run ok")),
@@ -261,8 +263,23 @@ fn cmd_graph(args: &[&str], out: &mut Vec<String>) {
             edges.push((p.next().unwrap().parse().unwrap(), p.next().unwrap().parse().unwrap()));
         }
     }
-    let show = |v: Vec<u32>| v.iter().map(|x| x.to_string()).collect::<Vec<_>>().join(",");
-    match hk::toposort(&nodes, &edges) {
+    let show = |v: Vec<u32>| if v.is_empty() { String::from("-") } else { v.iter().map(|x| x.to_string()).collect::<Vec<_>>().join(",") };
+    let (node_order, succ, result) = hk::toposort_trace(&nodes, &edges);
+    out.push(format!("nodes {}", show(node_order)));
+    let mut same = true;
+    let mut items = Vec::new();
+    for (n, direct, cloned) in succ {
+        if direct != cloned {
+            same = false;
+        }
+        if !direct.is_empty() {
+            items.push(format!("{}>{}", n, show(direct)));
+        }
+    }
+    out.push(format!("succ {}", if items.is_empty() { String::from("-") } else { items.join(";") }));
+    out.push(format!("cloneorder {}", if same { "same" } else { "differs" }));
+    out.push(format!("nedges {}", edges.len()));
+    match result {
         Ok(order) => out.push(format!("order {}", show(order))),
         Err(cycle) => out.push(format!("cycle {}", show(cycle))),
     }
